@@ -471,6 +471,7 @@ type FuncSpec struct {
 }
 
 type GhostDecl struct {
+	Pkg  string // package scope of the declaration
 	Name string
 	Key  string // key type ("" = scalar)
 	Val  string
@@ -781,7 +782,7 @@ func ParseContractFile(path string, pkgPath string) (*ContractFile, error) {
 		case "ghost":
 			if cur == nil && curLemma == nil {
 				// ghost name[KeyType] ValType   |  ghost name ValType
-				g := &GhostDecl{}
+				g := &GhostDecl{Pkg: cf.Pkg}
 				if i := strings.Index(rest, "["); i >= 0 && strings.Index(rest, "]") > i && !strings.Contains(rest[:i], " ") {
 					j := matchBracket(rest, i)
 					g.Name = rest[:i]
